@@ -97,6 +97,9 @@ def scenarios(prop, tier, seed=0):
     elif prop == 'C10':
         L.append(S('c10_p2_gate_other', [T('A', ('desync', 0, GATE)), T('B', ('desync', 1))], pool_max=2, queues=2, R=(2 if q else 3), B=16,
                    oracles=BASE + ('independent',), witness='ungated_done'))
+        # the pool's only thread frees up with [stale entry of q1, q2] in the schedule: q2 must still be run
+        L.append(S('c10_p1_stale_entry_r2', [T('A', ('desync', 0, GATE)), T('B', ('desync', 1), ('sync', 1), ('desync', 2), ('open_gate', 0))], pool_max=1, queues=3, R=2, B=34,
+                   order=[0, 2, 1], oracles=BASE + ('independent',), witness='ungated_done'))
         if not q: L.append(S('c10_p2_stale_entry', [T('A', ('desync', 0, GATE)), T('B', ('desync', 1), ('sync', 1), ('desync', 2))], pool_max=2, queues=3, R=(2 if q else 3), B=18,
                    oracles=BASE + ('independent',), witness='ungated_done'))
         if not q:
@@ -126,6 +129,9 @@ def scenarios(prop, tier, seed=0):
         L.append(S('c07_p1_syncfut', [T('A', ('future_desync', 0, {'fut': 'ready', 'as': 'f'}), ('sync_fut', 'f'))], pool_max=1, R=3, B=16,
                    oracles=BASE + ('deadlock', 'fut_results')))
         L.append(S('c07_p1_detach', [T('A', ('future_desync', 0, {'fut': 'ready', 'as': 'f'}), ('detach', 'f'))], pool_max=1, R=3, B=16,
+                   oracles=BASE + ('deadlock', 'quiescent_complete')))
+        # the operation wakes itself during a poll made by the caller (who claimed the queue) and is then detached: a pool thread must finish it
+        L.append(S('c07_p1_yield_poll_detach', [T('A', ('future_desync', 0, {'fut': 'yield', 'as': 'f'}), ('poll', 'f'), ('detach', 'f'))], pool_max=1, R=2, B=22,
                    oracles=BASE + ('deadlock', 'quiescent_complete')))
         if not q: L.append(S('c07_p1_poll_detach', [T('A', ('future_desync', 0, {'fut': ('gate', 0), 'as': 'f'}), ('poll', 'f'), ('detach', 'f')), T('W', ('open_gate', 0))], pool_max=1, R=3, B=18,
                    oracles=BASE + ('deadlock', 'quiescent_complete')))
@@ -170,6 +176,9 @@ def scenarios(prop, tier, seed=0):
         L.append(S('c14_p0_sync_sync_desync', [T('A', ('sync', 0)), T('B', ('sync', 0)), T('C', ('desync', 0))], pool_max=0, R=3, B=14, oracles=MEM))
         L.append(S('c14_p1_desync_sync', [T('A', ('desync', 0)), T('B', ('sync', 0))], pool_max=1, R=3, B=14, oracles=MEM))
         L.append(S('c14_p1_try_sync_drop', [T('A', ('d_new', 'd'), ('d_try_sync', 'd'), ('d_desync', 'd'), ('d_drop', 'd'))], pool_max=1, queues=0, R=3, B=18, oracles=MEM))
+        # the Desync is dropped while a wake-up of its suspended future is half done (queue Idle with the future still queued): thread order A, P0, W
+        L.append(S('c14_p1_fut_drop', [T('A', ('d_new', 'd'), ('d_future_desync', 'd', {'fut': ('gate', 0), 'as': 'f'}), ('detach', 'f'), ('d_drop', 'd')), T('W', ('open_gate', 0))],
+                   pool_max=1, queues=0, R=2, B=18, order=[0, 2, 1], oracles=MEM))
         if not q:
             L.append(S('c14_p1_fut_sync_drop', [T('A', ('d_new', 'd'), ('d_future_desync', 'd', {'fut': ('gate', 0), 'as': 'f'}), ('detach', 'f'), ('d_sync', 'd'), ('d_drop', 'd')), T('W', ('open_gate', 0))],
                        pool_max=1, queues=0, R=3, B=18, oracles=MEM))
